@@ -1,0 +1,16 @@
+//go:build verif
+
+package chain
+
+import "go.sia.tech/core/consensus"
+
+// Lemma harnesses for /verif/gocv (build tag verif only). Their bodies only
+// call the real functions of this package; what they state is their contract in
+// contracts_verif.go. They are never called.
+
+// lemmaApplyRevertElements: reverting a block's element diffs right after
+// applying them restores the three element buckets.
+func lemmaApplyRevertElements(db *DBStore, cau consensus.ApplyUpdate, cru consensus.RevertUpdate) {
+	db.applyElements(cau)
+	db.revertElements(cru)
+}
